@@ -979,6 +979,7 @@ def run_symbolic(h, tier="quick", stubs=None):
     """Explore + discharge one harness.  Returns a JSON-able dict."""
     opts = dict(h.opts)
     opts.setdefault("max_explore_s", 240 if tier == "quick" else 1200)
+    opts.setdefault("max_paths", 4000 if tier == "quick" else 40000)
     holder = {}
 
     def factory(c):
